@@ -11,6 +11,9 @@ abbrev Dec18 := Int
 
 def maxDecBitLen : Nat := 315
 
+/-- a stream must be funded for at least a minute (tied to the source by `c11_limits_from_source`) -/
+def minStreamDuration : Int := 60
+
 /-- `types.MaxDurationSeconds` = MaxInt64 / 10^9 : the longest duration expressible as a `time.Duration` -/
 def maxDurationSeconds : Int := 9223372036
 
@@ -165,7 +168,7 @@ def vbCreateStream (rT sT : AddrTok) (denom : String) (amt rate : Int) : M Unit 
   require (!coinNotPositive amt) eStrInvalidData
   require (1 ≤ rate) eStrInvalidData
   require (sT ≠ rT) eStrInvalidData
-  require (60 ≤ calcDuration amt rate) eStrInvalidData
+  require (minStreamDuration ≤ calcDuration amt rate) eStrInvalidData
 
 /-- message server `CreateStream` -/
 def createStream (x : SB) (now : Int) (blocked : Addr → Bool) (rT sT : AddrTok) (denom : String) (amt rate : Int) : M SB := do
@@ -176,7 +179,7 @@ def createStream (x : SB) (now : Int) (blocked : Addr → Bool) (rT sT : AddrTok
   require (!AL.contains x.str.streams (r, s)) eStrExists
   require (!coinNotPositive amt) eStrInvalidData
   require (0 < rate) eStrInvalidData
-  require (60 ≤ calcDuration amt rate) eStrInvalidData
+  require (minStreamDuration ≤ calcDuration amt rate) eStrInvalidData
   -- CreateNewStream
   let st : Stream := { denom := denom, deposit := 0, rate := rate, last := now, zero := 0, cancellable := true }
   addDeposit { x with str := setStream x r s st } now blocked r s denom amt
